@@ -84,6 +84,7 @@ func main() {
 	cpuprof := flag.String("cpuprofile", "", "write cpu profile")
 	nValidate := flag.Int("validate", 4, "number of concrete engine-vs-native differential runs")
 	maxSec := flag.Int("max-seconds", 0, "per-instance deadline override")
+	maxStepsFlag := flag.Int64("max-steps", 0, "development only: per-path instruction budget override")
 	covFlag := flag.Bool("cov", false, "print the uncovered basic blocks of the property's anchor files")
 	repoFlag := flag.String("repo", "/repo", "development only: source tree to check instead of /repo")
 	outFlag := flag.String("out", "", "development only: directory for evidence and replays instead of <verif>/evidence")
@@ -115,7 +116,7 @@ func main() {
 		*tier = t
 	}
 	d := &driver{prop: *prop, tier: *tier, workers: *workers, seed: *seed, verif: *verifDir, only: *only,
-		verbose: *verbose, solver: *solver, paramOverride: *paramOverride, noReplay: *noReplay, maxSec: *maxSec, nValidate: *nValidate, printCov: *covFlag}
+		verbose: *verbose, solver: *solver, paramOverride: *paramOverride, noReplay: *noReplay, maxSec: *maxSec, nValidate: *nValidate, printCov: *covFlag, maxSteps: *maxStepsFlag}
 	code := d.main()
 	pprof.StopCPUProfile()
 	os.Exit(code)
@@ -144,6 +145,7 @@ type driver struct {
 	nValidate     int
 	validation    *validationOutcome
 	maxSec        int
+	maxSteps      int64
 	printCov      bool
 	codeCov       *codeCov
 
@@ -319,6 +321,9 @@ func (d *driver) explore(prog *interp.Program, insts []instance) []*result {
 				lim := interp.Limits{MaxSteps: 50_000_000, MaxPaths: 200000, MaxDecisions: 5000, Preemptions: -1, MaxValues: 64}
 				if in.h.MaxSteps > 0 {
 					lim.MaxSteps = in.h.MaxSteps
+				}
+				if d.maxSteps > 0 {
+					lim.MaxSteps = d.maxSteps
 				}
 				if in.h.MaxPaths > 0 {
 					lim.MaxPaths = in.h.MaxPaths
